@@ -273,7 +273,8 @@ PRELUDE = r'''
       (let [fa (string/split "\t" (a i)) fr (string/split "\t" (r i))]
         (cond
           (not= (fa 0) (fr 0)) (mm S "value-vs-error" i (a i) (r i))
-          (= (fa 0) "E") (if (= (fa 1) (fr 1))
+          # messages carry "opened at line L, column C": a difference in digits only is a position difference
+          (= (fa 0) "E") (if (= (peg/replace-all '(some :d) "#" (fa 1)) (peg/replace-all '(some :d) "#" (fr 1)))
                            (mm S "error-position-differs" i (a i) (r i))
                            (mm S "error-message-differs" i (a i) (r i)))
           (not= (fa 1) (fr 1)) (mm S "value-differs" i (fa 1) (fr 1))
@@ -327,14 +328,17 @@ PRELUDE = r'''
         (do (var r nil) (for i 0 (length a) (unless r (set r (leafdiff (a i) (b i))))) r))
     (dictionary? a)
       (if (not= (length a) (length b)) (string ta "-length")
-        # entries in the order of the canonical text of their keys, compared pairwise
-        (let [ka (sort-by canon-of (keys a)) kb (sort-by canon-of (keys b))]
+        # keys with equal canonical text are paired; the rest pairwise in the order of their text
+        (let [ca (tabseq [k :keys a] (canon-of k) k) cb (tabseq [k :keys b] (canon-of k) k)]
           (var r nil)
-          (for i 0 (length ka)
-            (unless r
-              (set r (if (= (canon-of (ka i)) (canon-of (kb i)))
-                       (leafdiff (get a (ka i)) (get b (kb i)))
-                       (or (leafdiff (ka i) (kb i)) "key")))))
+          (each c (sort (keys ca))
+            (when (and (not r) (has-key? cb c))
+              (set r (leafdiff (get a (ca c)) (get b (cb c))))))
+          (unless r
+            (def ra (sort (filter |(not (has-key? cb $)) (keys ca))))
+            (def rb (sort (filter |(not (has-key? ca $)) (keys cb))))
+            (for i 0 (min (length ra) (length rb))
+              (unless r (set r (or (leafdiff (ca (ra i)) (cb (rb i))) "key")))))
           r))
     (= ta :buffer) (if (= (string a) (string b)) nil "buffer->buffer")
     (= a b) nil
